@@ -46,6 +46,7 @@ const (
 	OpSExt
 	OpIte // cond, a, b (result sort = a's)
 	OpWide // wide constant (W > 64) held in Big
+	OpUF   // uninterpreted function Name applied to Args[0] (a bit-vector); result width W
 )
 
 var opNames = map[Op]string{
@@ -203,6 +204,9 @@ func intern(op Op, w int, a, b int, name string, args ...*Term) *Term {
 	termTab[k] = t
 	return t
 }
+
+// UF applies the uninterpreted function name (result width w) to one bit-vector argument.
+func UF(name string, w int, arg *Term) *Term { return intern(OpUF, w, 0, 0, name, arg) }
 
 // Var returns the variable with the given name and sort (interned by name).
 func Var(name string, w int) *Term { return intern(OpVar, w, 0, 0, name) }
@@ -995,6 +999,12 @@ func (t *Term) write(sb *strings.Builder, named map[*Term]string, depth int) {
 		sb.WriteString(wideLit(t.W, t.Big))
 	case OpVar:
 		sb.WriteString(smtName(fmt.Sprintf("%s@%d", t.Name, t.W)))
+	case OpUF:
+		sb.WriteString("(")
+		sb.WriteString(smtName(t.Name))
+		sb.WriteString(" ")
+		t.Args[0].write(sb, named, depth+1)
+		sb.WriteString(")")
 	case OpExtract:
 		fmt.Fprintf(sb, "((_ extract %d %d) ", t.A, t.B)
 		t.Args[0].write(sb, named, depth+1)
@@ -1198,6 +1208,8 @@ func (t *Term) Eval(env map[string]*big.Int, memo map[*Term]*big.Int) *big.Int {
 		} else {
 			r = arg(2)
 		}
+	case OpUF:
+		panic("Eval: uninterpreted function application")
 	default:
 		panic("Eval: bad op")
 	}
